@@ -14,6 +14,9 @@
 (*  addcloser.ret  j, ok           ... returned nil (ok) / an error          *)
 (*  addcloser.bad  ok              AddCloser(value of an unsupported type)   *)
 (*  runcall      id                Run is being called                       *)
+(*  runstarted                     a Run won the manager's running flag      *)
+(*               (seen through the verif points *.run.afterCAS): from here   *)
+(*               on the manager has definitely been started                  *)
 (*  runreturn    id, rejected, errs   Run returned; rejected: the error is   *)
 (*               ErrManagerAlreadyStarted; errs: ids of the leaves of the    *)
 (*               joined error (a sequence: duplicates visible)               *)
@@ -86,10 +89,19 @@ Accepted(c) ==
   ELSE c
 
 ----------------------------------------------------------------------------
+(* additions are rejected once the manager's single life is used up, by Run  *)
+(* or by Close; an Add that returned nil registers the runner: Run has to     *)
+(* start it and wait for it                                                   *)
 CAddRunner(c, e) ==
-  IF e.ok /\ c.phase \in {"running", "finished"} THEN Bad("Add was accepted after Run")
-  ELSE IF e.ok /\ c.phase = "new" THEN [c EXCEPT !.rreg[e.i] = TRUE]
+  IF e.ok /\ c.phase \in {"running", "finished"} THEN Bad("Add was accepted after Run had started")
+  ELSE IF e.ok /\ c.phase = "neverran" THEN Bad("Add was accepted after Close on a manager that never ran")
+  ELSE IF e.ok THEN [c EXCEPT !.rreg[e.i] = TRUE]      \* new, or Run / Close called but not settled yet
   ELSE c
+
+CRunStarted(c) ==
+  IF c.phase \in {"neverran", "finished"} THEN Bad("Run was accepted by a manager that had already run or been closed")
+  ELSE IF c.phase = "new" THEN Bad("harness: Run started without a call")
+  ELSE Accepted(c)
 
 CAddCloserCall(c, e) ==
   IF c.creg[e.j] # "no" THEN Bad("harness: closer id reused") ELSE [c EXCEPT !.creg[e.j] = "pending"]
@@ -247,6 +259,7 @@ CNext(c, e) ==
          [] e.ev = "addcloser.ret"  -> CAddCloserRet(c, e)
          [] e.ev = "addcloser.bad"  -> CAddCloserBad(c, e)
          [] e.ev = "runcall"        -> CRunCall(c, e)
+         [] e.ev = "runstarted"     -> CRunStarted(c)
          [] e.ev = "runreturn"      -> CRunReturn(c, e)
          [] e.ev = "closecall"      -> CCloseCall(c, e)
          [] e.ev = "closereturn"    -> CCloseReturn(c, e)
